@@ -6,6 +6,7 @@ mod codec;
 mod gen;
 mod rng;
 mod scen_exec;
+mod scen_grid;
 mod scen_stack;
 mod stategen;
 
@@ -51,7 +52,14 @@ fn main() {
             let tier = args.get(4).map(|s| s.as_str()).unwrap_or("quick");
             match scen.as_str() {
                 "stack" => scen_stack::run(seed, tier, &mut out),
-                "exec" => scen_exec::run(seed, tier, args.get(5).map(|s| s.as_str()).unwrap_or("*"), &mut out),
+                "exec" => scen_exec::run(
+                    seed,
+                    tier,
+                    args.get(5).map(|s| s.as_str()).unwrap_or("*"),
+                    args.get(6).and_then(|s| s.parse().ok()),
+                    &mut out,
+                ),
+                "stkgrid" => scen_grid::run(&mut out),
                 "stack-exh" => scen_stack::run_exhaustive(if tier == "thorough" { 4 } else { 3 }, &mut out),
                 _ => {
                     eprintln!("unknown scenario {}", scen);
